@@ -1,4 +1,4 @@
-(* JsExpr/Complete.v — every strict spelling ([spells false]) of a tree is parsed back to that tree.
+(* JsExpr/Complete.v — every spelling ([spells]) of a tree is parsed back to that tree.
    The proof is in continuation style: if the suffix loop started with the finished tree t (at its level)
    produces r on the remaining tokens, then parsing the spelling of t followed by those tokens produces r. *)
 From Coq Require Import ZifyBool.
@@ -9,6 +9,7 @@ From Verif Require Import Common.Base Common.Tactics Gen.PrattTable JsExpr.Synta
 Definition PE inf prec ts (r : res (expr * list token)) : Prop := r <> NoFuel /\ exists f, parse_expr f inf prec ts = r.
 Definition PS inf left prec pl ts (r : res (expr * list token)) : Prop := r <> NoFuel /\ exists f, parse_suffix f inf left prec pl ts = r.
 Definition PA ts acc (r : res (list expr * list token)) : Prop := r <> NoFuel /\ exists f, parse_args f ts acc = r.
+Definition PC ts acc tc (r : res (list expr * bool * list token)) : Prop := r <> NoFuel /\ exists f, parse_cover f ts acc tc = r.
 
 Lemma ok_nf {A} (a : A) : Ok a <> NoFuel. Proof. discriminate. Qed.
 Lemma fail_nf {A} : @Fail A <> NoFuel. Proof. discriminate. Qed.
@@ -18,6 +19,7 @@ Ltac fuel2 f1 f2 := exists (S (Nat.max f1 f2)).
 Ltac use_e H := erewrite (expr_more_fuel _ _ _ _ _ _ H); [|auto|lia].
 Ltac use_s H := erewrite (suffix_more_fuel _ _ _ _ _ _ _ _ H); [|auto|lia].
 Ltac use_a H := erewrite (args_more_fuel _ _ _ _ _ H); [|auto|lia].
+Ltac use_c H := erewrite (cover_more_fuel _ _ _ _ _ _ H); [|auto|lia].
 
 (* ---- one step of parseExpression -------------------------------------------------------------------------------- *)
 
@@ -50,15 +52,18 @@ Proof. destruct inf; vm_compute; reflexivity. Qed.
 
 Lemma PE_cover inf prec k pG pS rest args r1 r :
   pview k = PGroup pG pS -> (pG <? prec) = false ->
-  PA rest [] (Ok (args, r1)) -> args <> [] ->
+  PC rest [] false (Ok (args, false, r1)) -> args <> [] ->
   PS inf (EGroup (group_body args)) prec primary r1 r -> PE inf prec (k :: rest) r.
 Proof.
   intros Hv Hg [_ [f1 H1]] Hne [Hr [f2 H2]]. split; [exact Hr|]. fuel2 f1 f2.
-  rewrite parse_expr_step, Hv. unfold group_tail. rewrite Hg. rewrite parse_cover_args. use_a H1. cbn [rbind].
+  rewrite parse_expr_step, Hv. unfold group_tail. rewrite Hg. use_c H1. cbn [rbind].
   assert (Hbody : match args with
                   | [] => Fail
-                  | [x] => parse_suffix (Nat.max f1 f2) inf (EGroup x) prec primary r1
-                  | _ => parse_suffix (Nat.max f1 f2) inf (EGroup (EComma args)) prec primary r1
+                  | _ => if false then Fail else
+                         match args with
+                         | [x] => parse_suffix (Nat.max f1 f2) inf (EGroup x) prec primary r1
+                         | _ => parse_suffix (Nat.max f1 f2) inf (EGroup (EComma args)) prec primary r1
+                         end
                   end = r).
   { destruct args as [|x [|y l]]; [contradiction| |]; cbn [group_body] in H2; use_s H2; reflexivity. }
   destruct r1 as [|a r0]; [exact Hbody|].
@@ -66,6 +71,20 @@ Proof.
   (* an arrow follows: the suffix loop is outside the fragment as well *)
   apply Z.eqb_eq in Ea. destruct f2 as [|f2]; [cbn in H2; congruence|].
   rewrite parse_suffix_step, Ea, sview_arrow in H2. congruence.
+Qed.
+
+(* a trailing comma and no arrow: "unexpected ... in expression" *)
+Lemma PE_cover_fail inf prec k pG pS rest args r1 :
+  pview k = PGroup pG pS -> (pG <? prec) = false ->
+  PC rest [] false (Ok (args, true, r1)) -> args <> [] ->
+  (forall a r, r1 = a :: r -> ty a <> tt_ArrowToken) ->
+  PE inf prec (k :: rest) Fail.
+Proof.
+  intros Hv Hg [_ [f1 H1]] Hne Hna. split; [auto|]. exists (S f1).
+  rewrite parse_expr_step, Hv. unfold group_tail. rewrite Hg, H1. cbn [rbind].
+  destruct r1 as [|a r0].
+  - destruct args; [contradiction|reflexivity].
+  - specialize (Hna a r0 eq_refl). apply Z.eqb_neq in Hna. rewrite Hna. destruct args; [contradiction|reflexivity].
 Qed.
 
 (* ---- one step of parseExpressionSuffix ------------------------------------------------------------------------ *)
@@ -174,6 +193,30 @@ Proof.
     rewrite Hc, Z.eqb_refl. use_a H2. reflexivity.
 Qed.
 
+(* ---- the cover list of a parenthesis --------------------------------------------------------------------------- *)
+
+Definition PCcont (c : token) (r2 : list token) (acc' : list expr) (res : res (list expr * bool * list token)) : Prop :=
+  (ty c = tt_CloseParenToken /\ res = Ok (rev acc', false, r2)) \/
+  (ty c = tt_CommaToken /\ PC r2 acc' (next_close r2) res).
+
+Lemma PC_end k r acc tc : ty k = tt_CloseParenToken -> PC (k :: r) acc tc (Ok (rev acc, tc, r)).
+Proof. intros H. split; [auto|]. exists 1%nat. rewrite parse_cover_step, H, Z.eqb_refl. reflexivity. Qed.
+
+Lemma PC_arg k ts acc tc a c r2 res :
+  ty k <> tt_CloseParenToken -> ty k <> tt_EllipsisToken ->
+  PE true prec_OpAssign (k :: ts) (Ok (a, c :: r2)) -> PCcont c r2 (a :: acc) res -> res <> NoFuel ->
+  PC (k :: ts) acc tc res.
+Proof.
+  intros Hk1 Hk2 [_ [f1 H1]] Hc Hres. split; [exact Hres|].
+  apply Z.eqb_neq in Hk1. apply Z.eqb_neq in Hk2.
+  destruct Hc as [[Hc E]|[Hc [_ [f2 H2]]]].
+  - exists (S f1). rewrite parse_cover_step, Hk1, Hk2, H1. cbn [rbind].
+    replace (ty c =? tt_CommaToken) with false by (rewrite Hc; vm_compute; reflexivity).
+    rewrite Hc, Z.eqb_refl. congruence.
+  - fuel2 f1 f2. rewrite parse_cover_step, Hk1, Hk2. use_e H1. cbn [rbind].
+    rewrite Hc, Z.eqb_refl. unfold next_close in H2. use_c H2. reflexivity.
+Qed.
+
 (* ---- structure of spellings -------------------------------------------------------------------------------------- *)
 
 Definition elems (t : expr) : list expr := match t with EComma l => l | _ => [t] end.
@@ -181,20 +224,19 @@ Definition elems (t : expr) : list expr := match t with EComma l => l | _ => [t]
 Lemma elems_snoc x y : is_comma y = false -> elems (comma_snoc x y) = elems x ++ [y].
 Proof. intros _. destruct x; reflexivity. Qed.
 
-Lemma spells_lvl q inf ts t : spells q inf ts t ->
+Lemma spells_lvl inf ts t : spells inf ts t ->
   prec_OpExpr <= lvl t /\ (is_comma t = false -> prec_OpAssign <= lvl t).
 Proof.
   pose proof prec_order as PO.
-  destruct 1 as [inf k e Hv|inf ko pG pS ts t kc Hv Ht Hl Hkc|inf ko pG pS ts t km kc Hq Hv Ht Hl Hkm Hkc
+  destruct 1 as [inf k e Hv|inf ko pG pS ts t kc Hv Ht Hl Hkc
     |inf k pG pO pS pN ts x Hv Hx Hl|inf k pL pR pO pN xs x Hv Hlt Hx Hl|inf k pL pR pX pS pN xs x ys y Hv Hx Hok Hy Hl
     |inf kd pR pC xs x n Hv Hx Hl Hn Hp|inf ko pR pC pS xs x ys y kc Hv Hx Hl Hy Hly Hkc
     |inf ko pL pR pC xs x ats args Hv Hx Hl Ha|inf kq pL pR pS pE pN cs c xs x kc ys y Hv Hc Hlc Hx Hlx Hkc Hy Hly
     |inf k pL pS pN xs x ys y Hv Hx Hy Hl].
   - destruct (pview_leaf_lvl _ _ Hv) as [E _]. rewrite E. split; intros; lia.
   - cbn [lvl]. split; intros; lia.
-  - cbn [lvl]. split; intros; lia.
-  - cbn [lvl]. destruct (is_postfix_op pO); split; intros; lia.
-  - cbn [lvl]. destruct (is_postfix_op pO); split; intros; lia.
+  - cbn [lvl]. destruct (is_update_op pO); split; intros; lia.
+  - cbn [lvl]. destruct (is_update_op pO); split; intros; lia.
   - cbn [lvl]. rewrite (bin_level_of _ _ _ _ _ _ _ Hv).
     pose proof (sfact_all inf (ty k)) as SF. rewrite Hv in SF. cbn [sfact] in SF. b2p. split; intros; lia.
   - pose proof (sfact_all inf (ty kd)) as SF. rewrite Hv in SF. cbn [sfact] in SF. b2p.
@@ -207,7 +249,7 @@ Proof.
   - destruct x; cbn [comma_snoc lvl]; split; intros; try lia; discriminate.
 Qed.
 
-Lemma spells_comma_len q inf ts t : spells q inf ts t -> forall l, t = EComma l -> (2 <= length l)%nat.
+Lemma spells_comma_len inf ts t : spells inf ts t -> forall l, t = EComma l -> (2 <= length l)%nat.
 Proof.
   induction 1; intros l0 E; try discriminate.
   - (* leaf *) destruct (pview_leaf_lvl _ _ H) as [Hl _]. subst e. cbn [lvl] in Hl. pose proof prec_order. lia.
@@ -216,30 +258,29 @@ Proof.
     rewrite app_length. cbn [length]. specialize (IHspells1 _ eq_refl). lia.
 Qed.
 
-Lemma group_body_elems q inf ts t : spells q inf ts t -> group_body (elems t) = t.
+Lemma group_body_elems inf ts t : spells inf ts t -> group_body (elems t) = t.
 Proof.
   intros H. destruct t; try reflexivity. cbn [elems].
-  pose proof (spells_comma_len _ _ _ _ H l eq_refl) as Hl.
+  pose proof (spells_comma_len _ _ _ H l eq_refl) as Hl.
   destruct l as [|a [|b l]]; cbn [length] in Hl; try lia. reflexivity.
 Qed.
 
-Lemma elems_nonempty q inf ts t : spells q inf ts t -> elems t <> [].
+Lemma elems_nonempty inf ts t : spells inf ts t -> elems t <> [].
 Proof.
   intros H. destruct t; try discriminate. cbn [elems].
-  pose proof (spells_comma_len _ _ _ _ H l eq_refl) as Hl. destruct l; cbn [length] in Hl; [lia|discriminate].
+  pose proof (spells_comma_len _ _ _ H l eq_refl) as Hl. destruct l; cbn [length] in Hl; [lia|discriminate].
 Qed.
 
 (* a spelling starts with a token that starts an expression *)
 Definition starts_expr (k : token) : Prop :=
   match pview k with PLeaf _ | PUnary _ _ _ _ | PGroup _ _ => True | _ => False end.
 
-Lemma spells_first q inf ts t : spells q inf ts t -> exists k ts', ts = k :: ts' /\ starts_expr k.
+Lemma spells_first inf ts t : spells inf ts t -> exists k ts', ts = k :: ts' /\ starts_expr k.
 Proof.
   unfold starts_expr.
   induction 1; try (destruct IHspells1 as [k0 [ts' [E Hs]]]; subst; cbn [app]; eauto; fail).
   - exists k, []. rewrite H. auto.
   - exists ko, (ts ++ [kc]). rewrite H. auto.
-  - exists ko, (ts ++ [km; kc]). rewrite H0. auto.
   - exists k, ts. rewrite H. auto.
   - destruct IHspells as [k0 [ts' [E Hs]]]; subst; cbn [app]; eauto.
   - destruct IHspells as [k0 [ts' [E Hs]]]; subst; cbn [app]; eauto.
@@ -261,10 +302,16 @@ Definition cA (inf : bool) (ts : list token) (t : expr) : Prop :=
 Definition cB (ts : list token) (t : expr) : Prop :=
   forall acc c r2 res, PAcont c r2 (rev (elems t) ++ acc) res -> PA (ts ++ c :: r2) acc res.
 
+Definition cC (ts : list token) (t : expr) : Prop :=
+  forall acc tc c r2 res, PCcont c r2 (rev (elems t) ++ acc) res -> PC (ts ++ c :: r2) acc tc res.
+
 Definition cArgs (ats : list token) (args : list expr) : Prop :=
   forall rest acc, PA (ats ++ rest) acc (Ok (rev acc ++ args, rest)).
 
 Lemma PAcont_nf c r2 acc res : PAcont c r2 acc res -> res <> NoFuel.
+Proof. intros [[_ E]|[_ [H _]]]; [subst; auto|exact H]. Qed.
+
+Lemma PCcont_nf c r2 acc res : PCcont c r2 acc res -> res <> NoFuel.
 Proof. intros [[_ E]|[_ [H _]]]; [subst; auto|exact H]. Qed.
 
 Lemma ncont_close inf p c r : ty c = tt_CloseParenToken \/ ty c = tt_CloseBracketToken \/ ty c = tt_ColonToken ->
@@ -299,11 +346,11 @@ Proof.
   - apply PS_stop. destruct Hc as [H|[H|[H|[H H']]]]; try (apply ncont_close; tauto). apply ncont_comma; assumption.
 Qed.
 
-Lemma B_from_A ts t : spells false true ts t -> cA true ts t -> is_comma t = false -> cB ts t.
+Lemma B_from_A ts t : spells true ts t -> cA true ts t -> is_comma t = false -> cB ts t.
 Proof.
   intros Hsp HA Hnc acc c r2 res Hc.
   pose proof prec_order as PO.
-  destruct (spells_first _ _ _ _ Hsp) as [k [ts' [E Hst]]]. subst ts.
+  destruct (spells_first _ _ _ Hsp) as [k [ts' [E Hst]]]. subst ts.
   destruct (starts_not_close _ Hst) as [N1 N2].
   assert (Hel : elems t = [t]) by (destruct t; try reflexivity; discriminate).
   rewrite Hel in Hc. cbn [rev app] in Hc.
@@ -311,17 +358,30 @@ Proof.
   cbn [app]. eapply PA_arg; eauto.
   - change (k :: ts' ++ c :: r2) with ((k :: ts') ++ c :: r2). apply operand_done; auto.
     + lia.
-    + destruct (spells_lvl _ _ _ _ Hsp) as [_ H]. specialize (H Hnc). lia.
+    + destruct (spells_lvl _ _ _ Hsp) as [_ H]. specialize (H Hnc). lia.
     + destruct Hty as [H|H]; [tauto|]. right. right. right. split; [exact H|]. lia.
   - eapply PAcont_nf. exact Hc.
 Qed.
 
-Lemma rcond_down inf t y rest pS :
-  rlevel t = Some pS -> rcond inf t rest -> pS <= lvl y -> rcond inf y rest.
+Lemma C_from_A ts t : spells true ts t -> cA true ts t -> is_comma t = false -> cC ts t.
 Proof.
-  intros Ht Hr Hl. unfold rcond in *. rewrite Ht in Hr. destruct (rlevel y) as [p|] eqn:Ey; [|exact I].
-  eapply ncont_mono; [exact Hr|]. pose proof (rlevel_ge_lvl _ _ Ey). lia.
+  intros Hsp HA Hnc acc tc c r2 res Hc.
+  pose proof prec_order as PO.
+  destruct (spells_first _ _ _ Hsp) as [k [ts' [E Hst]]]. subst ts.
+  destruct (starts_not_close _ Hst) as [N1 N2].
+  assert (Hel : elems t = [t]) by (destruct t; try reflexivity; discriminate).
+  rewrite Hel in Hc. cbn [rev app] in Hc.
+  assert (Hty : ty c = tt_CloseParenToken \/ ty c = tt_CommaToken) by (destruct Hc as [[H _]|[H _]]; tauto).
+  cbn [app]. eapply PC_arg; eauto.
+  - change (k :: ts' ++ c :: r2) with ((k :: ts') ++ c :: r2). apply operand_done; auto.
+    + lia.
+    + destruct (spells_lvl _ _ _ Hsp) as [_ H]. specialize (H Hnc). lia.
+    + destruct Hty as [H|H]; [tauto|]. right. right. right. split; [exact H|]. lia.
+  - eapply PCcont_nf. exact Hc.
 Qed.
+
+Lemma BC_from_A ts t : spells true ts t -> cA true ts t -> is_comma t = false -> cB ts t /\ cC ts t.
+Proof. intros. split; [apply B_from_A|apply C_from_A]; assumption. Qed.
 
 Lemma rcond_ncont inf t rest pS : rlevel t = Some pS -> rcond inf t rest -> ncont inf pS rest = true.
 Proof. intros Ht Hr. unfold rcond in Hr. rewrite Ht in Hr. exact Hr. Qed.
@@ -349,19 +409,19 @@ Ltac exact_ps HS :=
   end.
 
 Lemma complete_all :
-  (forall inf ts t (s : spells false inf ts t), cA inf ts t /\ (inf = true -> cB ts t)) /\
-  (forall ats args (s : spells_args false ats args), cArgs ats args).
+  (forall inf ts t (s : spells inf ts t), cA inf ts t /\ (inf = true -> cB ts t /\ cC ts t)) /\
+  (forall ats args (s : spells_args ats args), cArgs ats args).
 Proof.
   pose proof prec_order as PO.
-  apply (spells_both_ind false
-           (fun inf ts t _ => cA inf ts t /\ (inf = true -> cB ts t))
+  apply (spells_both_ind
+           (fun inf ts t _ => cA inf ts t /\ (inf = true -> cB ts t /\ cC ts t))
            (fun ats args _ => cArgs ats args)).
   - (* leaf *)
     intros inf k e Hv.
     assert (HA : cA inf [k] e).
     { intros prec rest r Hp Hl Hrc HS. destruct (pview_leaf_lvl _ _ Hv) as [El _]. rewrite El in HS.
       cbn [app]. eapply PE_leaf; eauto. }
-    split; [exact HA|]. intros Ei. subst inf. apply B_from_A; auto.
+    split; [exact HA|]. intros Ei. subst inf. apply BC_from_A; auto.
     + apply SP_leaf. exact Hv.
     + apply lvl_not_comma. destruct (pview_leaf_lvl _ _ Hv) as [El _]. rewrite El. lia.
   - (* parenthesis *)
@@ -373,35 +433,33 @@ Proof.
       destruct (pG <? prec) eqn:EG.
       - eapply PE_group; eauto. apply operand_done; auto; lia.
       - eapply PE_cover; eauto.
-        + apply (IHB eq_refl). left. split; [exact Hkc|]. rewrite app_nil_r, rev_involutive. reflexivity.
+        + apply (proj2 (IHB eq_refl)). left. split; [exact Hkc|]. rewrite app_nil_r, rev_involutive. reflexivity.
         + eapply elems_nonempty. exact Ht.
-        + rewrite (group_body_elems _ _ _ _ Ht). exact HS. }
-    split; [exact HA|]. intros Ei. subst inf. apply B_from_A; [eapply SP_group; eauto|exact HA|reflexivity].
-  - (* the quirk is not a strict spelling *)
-    intros; discriminate.
+        + rewrite (group_body_elems _ _ _ Ht). exact HS. }
+    split; [exact HA|]. intros Ei. subst inf. apply BC_from_A; [eapply SP_group; eauto|exact HA|reflexivity].
   - (* prefix operator *)
     intros inf k pG pO pS pN ts x Hv Hx [IHA IHB] Hl.
     pose proof (pfact_all k) as PF. rewrite Hv in PF. cbn [pfact] in PF. b2p.
     assert (Hnp : is_postfix_op pO = false) by (destruct (is_postfix_op pO); [discriminate|reflexivity]).
     assert (HA : cA inf (k :: ts) (EUnary pO x)).
-    { intros prec rest r Hp Hlv Hrc HS. cbn [lvl] in HS, Hlv. rewrite Hnp in HS, Hlv.
+    { intros prec rest r Hp Hlv Hrc HS. cbn [lvl] in HS, Hlv.
       assert (Hn : ncont inf pS rest = true).
       { eapply ncont_mono; [eapply (rcond_ncont inf (EUnary pO x)); [cbn [rlevel]; rewrite Hnp; reflexivity|exact Hrc]|lia]. }
       cbn [app]. eapply PE_unary; eauto.
       - zfalse.
       - apply (right_operand inf ts x pS rest IHA); [lia|lia|exact Hn].
       - exact_ps HS. }
-    split; [exact HA|]. intros Ei. subst inf. apply B_from_A; [eapply SP_prefix; eauto|exact HA|reflexivity].
+    split; [exact HA|]. intros Ei. subst inf. apply BC_from_A; [eapply SP_prefix; eauto|exact HA|reflexivity].
   - (* postfix operator *)
     intros inf k pL pR pO pN xs x Hv Hlt Hx [IHA IHB] Hl.
     view_facts inf k Hv.
     assert (HA : cA inf (xs ++ [k]) (EUnary pO x)).
-    { intros prec rest r Hp Hlv Hrc HS. cbn [lvl] in HS, Hlv. rewrite H1 in HS, Hlv.
+    { intros prec rest r Hp Hlv Hrc HS. cbn [lvl] in HS, Hlv. rewrite (postfix_is_update _ H1) in HS, Hlv.
       rewrite <- app_assoc. cbn [app]. apply IHA; auto.
       - lia.
       - apply rcond_left. rewrite Hv. cbn [left_ok]. apply Z.leb_le. exact Hl.
       - eapply PS_post; eauto; try zfalse. exact_ps HS. }
-    split; [exact HA|]. intros Ei. subst inf. apply B_from_A; [eapply SP_postfix; eauto|exact HA|reflexivity].
+    split; [exact HA|]. intros Ei. subst inf. apply BC_from_A; [eapply SP_postfix; eauto|exact HA|reflexivity].
   - (* binary operator *)
     intros inf k pL pR pX pS pN xs x ys y Hv Hx [IHAx IHBx] Hok Hy [IHAy IHBy] Hl.
     view_facts inf k Hv.
@@ -417,7 +475,7 @@ Proof.
       - eapply PS_bin; eauto; try zfalse.
         apply right_operand; auto; try lia.
         eapply (rcond_ncont inf (EBinary (ty k) x y)); [eapply rlevel_bin; exact Hv|exact Hrc]. }
-    split; [exact HA|]. intros Ei. subst inf. apply B_from_A; [eapply SP_binary; eauto|exact HA|reflexivity].
+    split; [exact HA|]. intros Ei. subst inf. apply BC_from_A; [eapply SP_binary; eauto|exact HA|reflexivity].
   - (* dot *)
     intros inf kd pR pC xs x n Hv Hx [IHA IHB] Hl Hn Hp.
     view_facts inf kd Hv.
@@ -427,7 +485,7 @@ Proof.
       - lia.
       - apply rcond_left. rewrite Hv. cbn [left_ok]. apply Z.leb_le. exact Hl.
       - eapply PS_dot; eauto; try zfalse. exact_ps HS. }
-    split; [exact HA|]. intros Ei. subst inf. apply B_from_A; [eapply SP_dot; eauto|exact HA|reflexivity].
+    split; [exact HA|]. intros Ei. subst inf. apply BC_from_A; [eapply SP_dot; eauto|exact HA|reflexivity].
   - (* index *)
     intros inf ko pR pC pS xs x ys y kc Hv Hx [IHAx IHBx] Hl Hy [IHAy IHBy] Hly Hkc.
     view_facts inf ko Hv.
@@ -441,7 +499,7 @@ Proof.
       - eapply PS_index; eauto; try zfalse.
         + apply (operand_done true ys y pS kc rest IHAy); [lia|lia|tauto].
         + exact_ps HS. }
-    split; [exact HA|]. intros Ei. subst inf. apply B_from_A; [eapply SP_index; eauto|exact HA|reflexivity].
+    split; [exact HA|]. intros Ei. subst inf. apply BC_from_A; [eapply SP_index; eauto|exact HA|reflexivity].
   - (* call *)
     intros inf ko pL pR pC xs x ats args Hv Hx [IHA IHB] Hl Ha IHargs.
     view_facts inf ko Hv.
@@ -451,7 +509,7 @@ Proof.
       - lia.
       - apply rcond_left. rewrite Hv. cbn [left_ok]. apply Z.leb_le. exact Hl.
       - apply (PS_call inf x prec (lvl x) ko (ats ++ rest) pL pR pC args rest r Hv); [zfalse|zfalse|exact (IHargs rest [])|exact_ps HS]. }
-    split; [exact HA|]. intros Ei. subst inf. apply B_from_A; [eapply SP_call; eauto|exact HA|reflexivity].
+    split; [exact HA|]. intros Ei. subst inf. apply BC_from_A; [eapply SP_call; eauto|exact HA|reflexivity].
   - (* conditional *)
     intros inf kq pL pR pS pE pN cs c xs x kc ys y Hv Hc [IHAc IHBc] Hlc Hx [IHAx IHBx] Hlx Hkc Hy [IHAy IHBy] Hly.
     view_facts inf kq Hv.
@@ -470,7 +528,7 @@ Proof.
         + apply (right_operand inf ys y pE rest IHAy); [lia|lia|].
           replace pE with prec_OpAssign by lia. eapply (rcond_ncont inf (ECond c x y)); [reflexivity|exact Hrc].
         + exact_ps HS. }
-    split; [exact HA|]. intros Ei. subst inf. apply B_from_A; [eapply SP_cond; eauto|exact HA|reflexivity].
+    split; [exact HA|]. intros Ei. subst inf. apply BC_from_A; [eapply SP_cond; eauto|exact HA|reflexivity].
   - (* comma *)
     intros inf k pL pS pN xs x ys y Hv Hx [IHAx IHBx] Hy [IHAy IHBy] Hl.
     view_facts inf k Hv.
@@ -480,30 +538,37 @@ Proof.
     split.
     + intros prec rest r Hpr Hlv Hrc HS. rewrite Elv in HS, Hlv.
       rewrite <- app_assoc. cbn [app]. apply IHAx; auto.
-      * destruct (spells_lvl _ _ _ _ Hx) as [H3 _]. lia.
+      * destruct (spells_lvl _ _ _ Hx) as [H3 _]. lia.
       * apply rcond_left. rewrite Hv. reflexivity.
       * apply (PS_comma inf x prec (lvl x) k (ys ++ rest) pL pS pN y rest r Hv).
         -- zfalse.
         -- apply (right_operand inf ys y pS rest IHAy); [lia|lia|].
            replace pS with prec_OpAssign by lia. eapply rcond_ncont; eauto.
         -- exact_ps HS.
-    + intros Ei. subst inf. intros acc c r2 res Hc.
-      rewrite <- app_assoc. cbn [app]. apply (IHBx eq_refl).
-      right. split; [eapply sview_comma_tok; exact Hv|].
-      apply (IHBy eq_refl). rewrite elems_snoc in Hc by exact Hyc.
+    + intros Ei. subst inf.
       assert (Ey : elems y = [y]) by (destruct y; try reflexivity; discriminate).
-      rewrite Ey. cbn [rev app]. rewrite rev_app_distr in Hc. cbn [rev app] in Hc. exact Hc.
+      split.
+      * intros acc c r2 res Hc.
+        rewrite <- app_assoc. cbn [app]. apply (proj1 (IHBx eq_refl)).
+        right. split; [eapply sview_comma_tok; exact Hv|].
+        apply (proj1 (IHBy eq_refl)). rewrite elems_snoc in Hc by exact Hyc.
+        rewrite Ey. cbn [rev app]. rewrite rev_app_distr in Hc. cbn [rev app] in Hc. exact Hc.
+      * intros acc tc c r2 res Hc.
+        rewrite <- app_assoc. cbn [app]. apply (proj2 (IHBx eq_refl)).
+        right. split; [eapply sview_comma_tok; exact Hv|].
+        apply (proj2 (IHBy eq_refl)). rewrite elems_snoc in Hc by exact Hyc.
+        rewrite Ey. cbn [rev app]. rewrite rev_app_distr in Hc. cbn [rev app] in Hc. exact Hc.
   - (* arguments: () *)
     intros kc Hkc rest acc. cbn [app]. rewrite app_nil_r. apply PA_end. exact Hkc.
   - (* arguments: last *)
     intros ts a kc Ha [IHA IHB] Hl Hkc rest acc.
-    rewrite <- app_assoc. cbn [app]. apply (IHB eq_refl).
+    rewrite <- app_assoc. cbn [app]. apply (proj1 (IHB eq_refl)).
     assert (Ey : elems a = [a]).
     { assert (is_comma a = false) by (apply lvl_not_comma; lia). destruct a; try reflexivity; discriminate. }
     left. split; [exact Hkc|]. rewrite Ey. reflexivity.
   - (* arguments: one more *)
     intros ts a km rest0 l Ha [IHA IHB] Hl Hkm Hrest IHrest rest acc.
-    rewrite <- app_assoc. cbn [app]. apply (IHB eq_refl).
+    rewrite <- app_assoc. cbn [app]. apply (proj1 (IHB eq_refl)).
     assert (Ey : elems a = [a]).
     { assert (is_comma a = false) by (apply lvl_not_comma; lia). destruct a; try reflexivity; discriminate. }
     right. split; [exact Hkm|]. rewrite Ey. cbn [rev app].
@@ -511,7 +576,7 @@ Proof.
 Qed.
 
 Theorem parse_complete_rest inf ts t prec rest :
-  spells false inf ts t -> prec <= prec_OpUnary -> prec <= lvl t -> ncont inf prec rest = true ->
+  spells inf ts t -> prec <= prec_OpUnary -> prec <= lvl t -> ncont inf prec rest = true ->
   parse inf prec (ts ++ rest) = Ok (t, rest).
 Proof.
   intros Hs Hp Hl Hn. destruct (proj1 complete_all inf ts t Hs) as [HA _].
@@ -523,7 +588,7 @@ Proof.
 Qed.
 
 Theorem parse_complete inf ts t prec :
-  spells false inf ts t -> prec <= prec_OpUnary -> prec <= lvl t -> parse inf prec ts = Ok (t, []).
+  spells inf ts t -> prec <= prec_OpUnary -> prec <= lvl t -> parse inf prec ts = Ok (t, []).
 Proof.
   intros Hs Hp Hl. rewrite <- (app_nil_r ts) at 1. apply parse_complete_rest; auto.
 Qed.
